@@ -76,4 +76,9 @@ WrBuf(e, n, bytes) ==
   ELSE IF e.kind = "str" THEN [ok |-> FALSE, free |-> FALSE, e |-> e]            \* strings are read-only objects
   ELSE IF e.kind = "int" /\ Len(bytes) = e.w THEN [ok |-> TRUE, free |-> FALSE, e |-> WrTyped(e, n, e.w, bytes).e]
   ELSE [ok |-> FALSE, free |-> TRUE, e |-> e]
+\* continued access to a domain (COObjRdBufCont / COObjWrBufCont): goes on at offset `off' (what the preceding access of the object
+\* left), moves min(len, size - off) bytes and advances the offset; [bytes / e, off]
+DomRdCont(e, off, len) == LET m == Min(len, Len(e.data) - off) IN [bytes |-> SubSeq(e.data, off + 1, off + m), off |-> off + m]
+DomWrCont(e, off, bytes) == LET m == Min(Len(bytes), Len(e.data) - off) IN
+                            [e |-> [e EXCEPT !.data = Take(e.data, off) \o Take(bytes, m) \o Drop(e.data, off + m)], off |-> off + m]
 =============================================================================
